@@ -44,6 +44,9 @@ class C11(HistProp):
         # text with multi-byte UTF-8 (the decoder records its code point count), also as chunks incl. an empty one, also nested: the copy must carry the same counts
         mb = 'h\u00e9llo\u20ac\U0001F600'.encode('utf-8'); mb2 = '\u00e9\u20ac'.encode('utf-8')
         def tx(b): return bytes([0x60 + len(b)]) + b
+        nul = b'a\x00b'; nul2 = b'\x00\x00xyz\x00'
+        for e in (tx(nul), tx(nul2), b'\x7f' + tx(nul) + tx(b'q') + b'\xff', b'\xa1' + tx(nul) + tx(nul2), b'\x82' + b'\x43' + nul + tx(nul), b'\xc1' + tx(b'\x00')):
+            setups.append((['load 0 ' + gen.hexs(e)], ''))        # text with embedded NUL bytes (followed by other bytes): a copy made with a C-string routine stops there
         for e in (tx(mb), b'\x7f' + tx(mb2) + tx(b'') + tx(mb) + b'\xff', b'\xa1' + tx(mb2) + b'\x82' + tx(mb) + b'\xc1' + tx(mb2), b'\x9f\x7f' + tx(mb) + b'\xff\xff'):
             setups.append((['load 0 ' + gen.hexs(e)], ''))
         for setup, kind in setups:
@@ -61,9 +64,25 @@ class C11(HistProp):
                 hs.append((l, [None] * len(l)))
         for i in range(1000 if tier == 'thorough' else 30):
             hs.append(hist.history(rng, 80))
+        # a copy that fails part-way (every single-fault and fail-stop schedule): the source's contents and reference counts are exactly as before
+        # (the copy scenarios of C06, judged by C06's state comparison)
+        from .C06 import C06
+        self._c06 = C06()
+        for l, e in self._c06.histories(tier, core.Rng('C11-faulted')):
+            if any(x.startswith('H copy') for x in l) and any(x.startswith('HFAULT') for x in l): hs.append((l, e))
+        for setup, top in ((['int 0 0 8 7', 'btag 1 24 0', 'btag 2 55799 1'], 2), (['str 0 1 6162', 'arr 1 0 0', 'push 1 0', 'btag 2 24 1', 'btag 3 55799 2'], 3)):
+            for k in range(0, 8):
+                for mode in (1, 2):
+                    l, mark, oi = self._c06.build(setup, 'copy 7 %d' % top, mode, k)
+                    hs.append((l, [None] * len(l)))
         return hs
 
     def judge(self, lines, outs, expect):
+        if any(l.startswith('HFAULT') and not l.startswith('HFAULT 0 0') for l in lines):
+            fi = next(i for i, l in enumerate(lines) if l.startswith('HFAULT') and not l.startswith('HFAULT 0 0'))
+            if outs[fi + 1].split(' ')[0] not in ('NULL', 'false'):      # the schedule did not bite (k beyond the requests of this copy): only the end state counts
+                return None if 'live=0' in outs[-1] else (len(lines) - 1, 'blocks left: ' + outs[-1])
+            return self._c06.judge(lines, outs, expect)
         scen = 'H copy 1 0' in lines and lines.index('H copy 1 0') >= 3 and lines[lines.index('H copy 1 0') - 1] == 'H ser 0' and lines[lines.index('H copy 1 0') - 2] == 'H dump 0'
         if not scen: return None if 'live=0' in outs[-1] else (len(lines) - 1, 'blocks left: ' + outs[-1])
         ci = lines.index('H copy 1 0')
